@@ -6,7 +6,7 @@
 From Coq Require Import List NArith ZArith Lia.
 From Coq.Strings Require Import Byte.
 Import ListNotations.
-From BWLexer Require Import Utf8 Unicode Lexer LexerProofs CaseProofs.
+From BWLexer Require Import Utf8 Unicode Lexer LexerProofs CaseProofs PrintedProofs.
 From BWLexer.Gen Require Import LexTablesGen.
 
 (* ---------------------------------------------------------------- termination / channel closed *)
@@ -158,6 +158,96 @@ Proof.
   - repeat constructor; (now left) || (right; split; reflexivity).
   - reflexivity.
 Qed.
+
+(* ---------------------------------------------------------------- printed forms are single tokens *)
+(* Each printed form alone is lexed as exactly one token carrying exactly that text, followed by EOF.  All six are
+   PARTIAL: the spellings are ASCII, and the domains exclude exactly the spellings of the listed findings
+   (C16_printed_*_refuted below).  U: any unicode record agreeing with ASCII on ASCII. *)
+
+(* literal  "body"^^type:T : body without double quote and backslash, T in the generated type list *)
+Theorem C16_printed_literal_partial : forall (U : uni), ascii_ok U -> forall body ty,
+  Forall (fun b => (bz b < 128)%Z /\ bz b <> 34%Z /\ bz b <> 92%Z) body -> In ty literal_types ->
+  let inp := x22 :: body ++ s_literalType ++ ty in
+  lex_with U inp = ([(ItemLiteral, 0, length inp); (ItemEOF, length inp, length inp)], true).
+Proof. exact printed_literal. Qed.
+Print Assumptions C16_printed_literal_partial.
+
+(* binding  ?name : name of ASCII letters, digits, '_' *)
+Theorem C16_printed_binding_partial : forall (U : uni), ascii_ok U -> forall name,
+  Forall (fun b => (0 <= bz b < 128)%Z /\ (ascii_letter (bz b) || ascii_digit (bz b) || Z.eqb (bz b) 95)%bool = true) name ->
+  let inp := x3f :: name in
+  lex_with U inp = ([(ItemBinding, 0, length inp); (ItemEOF, length inp, length inp)], true).
+Proof. exact printed_binding. Qed.
+Print Assumptions C16_printed_binding_partial.
+
+(* BQL blank node  _:label : label = ASCII letter followed by letters, digits, '_' *)
+Theorem C16_printed_blank_node_partial : forall (U : uni), ascii_ok U -> forall a name,
+  (0 <= bz a < 128)%Z -> ascii_letter (bz a) = true ->
+  Forall (fun b => (0 <= bz b < 128)%Z /\ (ascii_letter (bz b) || ascii_digit (bz b) || Z.eqb (bz b) 95)%bool = true) name ->
+  let inp := x5f :: x3a :: a :: name in
+  lex_with U inp = ([(ItemBlankNode, 0, length inp); (ItemEOF, length inp, length inp)], true).
+Proof. exact printed_bql_blank_node. Qed.
+Print Assumptions C16_printed_blank_node_partial.
+
+(* node  /type<id> : type and id ASCII without '<' '>' and backslash (this covers printed blank nodes /_<uuid>) *)
+Theorem C16_printed_node_partial : forall (U : uni), ascii_ok U -> forall ty id,
+  Forall (fun b => (bz b < 128)%Z /\ bz b <> 60%Z /\ bz b <> 62%Z /\ bz b <> 92%Z) ty ->
+  Forall (fun b => (bz b < 128)%Z /\ bz b <> 60%Z /\ bz b <> 62%Z /\ bz b <> 92%Z) id ->
+  let inp := x2f :: ty ++ x3c :: id ++ [x3e] in
+  lex_with U inp = ([(ItemNode, 0, length inp); (ItemEOF, length inp, length inp)], true).
+Proof. exact printed_node. Qed.
+Print Assumptions C16_printed_node_partial.
+
+(* predicate  "id"@[anchor] : id without double quote and backslash and not starting with ^ or @; anchor text
+   without double quote, ']' and ',' (RFC3339 times and the empty anchor qualify) *)
+Theorem C16_printed_predicate_partial : forall (U : uni), ascii_ok U -> forall id an,
+  (Forall (fun b => (bz b < 128)%Z /\ bz b <> 34%Z /\ bz b <> 92%Z) id /\
+   match id with [] => True | a :: _ => bz a <> 94%Z /\ bz a <> 64%Z end) ->
+  Forall (fun b => (bz b < 128)%Z /\ bz b <> 34%Z /\ bz b <> 93%Z /\ bz b <> 44%Z) an ->
+  let inp := x22 :: id ++ s_anchor ++ an ++ [x5d] in
+  lex_with U inp = ([(ItemPredicate, 0, length inp); (ItemEOF, length inp, length inp)], true).
+Proof. exact printed_predicate. Qed.
+Print Assumptions C16_printed_predicate_partial.
+
+(* predicate bound  "id"@[lower,upper] *)
+Theorem C16_printed_bound_partial : forall (U : uni), ascii_ok U -> forall id a1 a2,
+  (Forall (fun b => (bz b < 128)%Z /\ bz b <> 34%Z /\ bz b <> 92%Z) id /\
+   match id with [] => True | a :: _ => bz a <> 94%Z /\ bz a <> 64%Z end) ->
+  Forall (fun b => (bz b < 128)%Z /\ bz b <> 34%Z /\ bz b <> 93%Z /\ bz b <> 44%Z) a1 ->
+  Forall (fun b => (bz b < 128)%Z /\ bz b <> 34%Z /\ bz b <> 93%Z /\ bz b <> 44%Z) a2 ->
+  let inp := x22 :: id ++ s_anchor ++ (a1 ++ x2c :: a2) ++ [x5d] in
+  lex_with U inp = ([(ItemPredicateBound, 0, length inp); (ItemEOF, length inp, length inp)], true).
+Proof. exact printed_bound. Qed.
+Print Assumptions C16_printed_bound_partial.
+
+(* the domains are inhabited by the usual spellings:  "p q"@[2006-01-02T15:04:05Z]  and  /u<joe@x.com> *)
+Example C16_printed_predicate_example :
+  lex_out ([x22;x70;x20;x71] ++ s_anchor ++ [x32;x30;x30;x36;x2d;x30;x31;x2d;x30;x32;x54;x31;x35;x3a;x30;x34;x3a;x30;x35;x5a] ++ [x5d])
+  = ([(ItemPredicate, 0, 28); (ItemEOF, 28, 28)], true).
+Proof.
+  apply (C16_printed_predicate_partial go_uni C16_go_uni_ascii_ok [x70;x20;x71]
+           [x32;x30;x30;x36;x2d;x30;x31;x2d;x30;x32;x54;x31;x35;x3a;x30;x34;x3a;x30;x35;x5a]).
+  - split; [repeat constructor; vm_compute; congruence|vm_compute; split; congruence].
+  - repeat constructor; vm_compute; congruence.
+Qed.
+
+(* ---- refuted outside those domains: printed values WITHOUT embedded double quote that are not one token *)
+(* predicate with id  a\  prints (%q) as  "a\\"@[]  : the lexer takes the second backslash + quote as an escaped quote;
+   predicate with id  ^^type:  prints as  "^^type:"@[]  : lexPredicateOrLiteral sees the literal marker at offset 0;
+   text literal  a\  prints as  "a\"^^type:text *)
+Theorem C16_printed_predicate_refuted :
+  kinds [x22;x61;x5c;x5c;x22;x40;x5b;x5d] = [ItemError] /\
+  kinds [x22;x5e;x5e;x74;x79;x70;x65;x3a;x22;x40;x5b;x5d] = [ItemError] /\
+  kinds [x22;x40;x5b;x78;x22;x40;x5b;x5d] = [ItemError] /\
+  kinds [x22;x61;x5c;x22;x5e;x5e;x74;x79;x70;x65;x3a;x74;x65;x78;x74] = [ItemError].
+Proof. vm_compute. repeat split; reflexivity. Qed.
+Print Assumptions C16_printed_predicate_refuted.
+
+(* node whose type contains '>' ( /a> is accepted by node.NewType ) prints as  /a><b>  *)
+Theorem C16_printed_node_refuted :
+  kinds [x2f;x61;x3e;x3c;x62;x3e] = [ItemError] /\ kinds [x2f;x61;x5c;x3c;x62;x3e] = [ItemError].
+Proof. vm_compute. split; reflexivity. Qed.
+Print Assumptions C16_printed_node_refuted.
 
 (* ---------------------------------------------------------------- examples: the statements are about real runs *)
 Example C16_example_select :
